@@ -125,7 +125,7 @@ type State struct {
 	pc      *pcNode
 	alloc   *Term
 	ghost   map[string]*Term
-	written map[string]bool // shared: components written (for loop write-set discovery)
+	written *writeSet // shared: components written (for loop write-set discovery)
 	dry     bool
 	depth   int
 }
@@ -211,8 +211,66 @@ func (x *Exec) setComp(st *State, fam string, root types.Type, j int, t *Term) {
 	st.assume(Eq(v, t))
 	x.defs[v.Name] = t
 	st.heap[k] = v
-	if st.written != nil {
-		st.written[k] = true
+	x.recordWrite(st, k, t)
+	x.frameWrite(st, k, t)
+}
+
+// writeSet records, during a dry run of a loop body, which heap components are written and at which
+// (loop-invariant) references.
+type wrec struct {
+	all  bool
+	refs []*Term
+	seen map[string]bool
+}
+type writeSet struct {
+	comps map[string]*wrec
+	start int // value of the fresh-symbol counter when the dry run started
+}
+
+func symCounter(name string) int {
+	i := strings.LastIndex(name, "!")
+	if i < 0 {
+		return 0
+	}
+	n := 0
+	for _, c := range name[i+1:] {
+		if c < '0' || c > '9' {
+			return 0
+		}
+		n = n*10 + int(c-'0')
+	}
+	return n
+}
+
+func (x *Exec) recordWrite(st *State, k string, t *Term) {
+	ws := st.written
+	if ws == nil {
+		return
+	}
+	r := ws.comps[k]
+	if r == nil {
+		r = &wrec{seen: map[string]bool{}}
+		ws.comps[k] = r
+	}
+	if t == nil || t.Op != "store" {
+		r.all = true
+		return
+	}
+	ref := t.Args[1]
+	if ref.Op == "const" && strings.HasPrefix(ref.Name, "ref_") && symCounter(ref.Name) > ws.start {
+		return // object allocated inside the loop body: invisible at the loop head
+	}
+	syms := map[string]bool{}
+	ref.FreeConsts(syms)
+	for s := range syms {
+		if symCounter(s) > ws.start {
+			r.all = true
+			return
+		}
+	}
+	if !r.seen[ref.String()] {
+		r.seen[ref.String()] = true
+		r.refs = append(r.refs, ref)
 	}
 }
 
@@ -226,9 +284,7 @@ func (x *Exec) assumeGlobFacts(st *State, k string, comp *Term) {
 }
 
 func (x *Exec) havocComp(st *State, k string) {
-	if st.written != nil {
-		st.written[k] = true
-	}
+	x.recordWrite(st, k, nil)
 	hi, ok := x.heapInfo[k]
 	if !ok {
 		if s, ok := x.rawSorts[k]; ok {
